@@ -239,6 +239,9 @@ contract(F, 'OutputProxy._init_ugen', props=('C02',),
          ensures=[('wire=(source-unit-index,channel)', lambda c: z3.And(
              c.post.self._output_index == c.index,
              c.post.self._synth_index == c.pre.source_ugen._synth_index)),
+             ('remembers-its-source-unit', lambda c: z3.BoolVal(
+                 c.post.self.v('source_ugen') is c._params['source_ugen']
+                 or (c.post.self.v('source_ugen').k == 'ref' and c.post.self.v('source_ugen').oid == 'source_ugen'))),
              ('returns-itself', lambda c: z3.BoolVal(c.resultv.k == 'ref' and c.resultv.oid == 'self'))],
          modifies=[('self', 'source_ugen'), ('self', '_output_index'), ('self', '_synth_index')],
          fields={'OutputProxy': dict(UG, source_ugen='obj'), 'UGen': UG},
